@@ -13,6 +13,8 @@ import Bermuda.Lemmas.ExtendInc
 import Bermuda.Lemmas.ExtendIncCum
 import Bermuda.Lemmas.ExtendBackfill
 import Bermuda.Lemmas.ExtendSpec
+import Bermuda.Lemmas.ExtendDays
+import Bermuda.Lemmas.ExtendSpecDiag
 import Bermuda.Spec.C15
 namespace Bermuda.Properties.C15
 open Bermuda Bermuda.Extend
@@ -183,11 +185,6 @@ end Incremental
 section BothBases
 variable {t out : List Cell} {lags : Option (List Rat)} {u : LagUnit}
 
-/-- the cumulative form the operators work on: `t` itself, or `to_cumulative(t)` -/
-def CumOf (t cum : List Cell) : Prop :=
-  (Triangle.isIncremental t = false ∧ cum = t) ∨
-  (Triangle.isIncremental t = true ∧ Triangle.toCumulative t = .ok cum)
-
 /-- **rightTri_lags_exact** (both bases): with `cum` the cumulative form of `t`, the coordinates
 (metadata, period, evaluation date) of the result are exactly those of the `RightTriCell`s of `cum`:
 for each slice and each right-edge cell of it, the lags of the slice's lag list that exceed the cell's lag. -/
@@ -252,25 +249,6 @@ theorem rightTri_metadata (h : makeRightTriangleU t lags (some u) = .ok out) {c 
     have := hlatest o' ho' (by rw [m1, hm, h1]) (by rw [m2, hps, h2]) (by rw [m3, hpe, h3])
     rw [hoe, ← hxe] at this
     exact this
-
-theorem lagListOf_int {lags : Option (List Rat)} {slice : List Cell}
-    (hal : ∀ c ∈ slice, MonthAligned c)
-    (hint : ∀ l, lags = some l → ∀ lag ∈ l, ∃ k : Int, lag = ((k : Int) : Rat)) :
-    ∀ lag ∈ lagListOf lags .month slice, ∃ k : Int, lag = ((k : Int) : Rat) := by
-  intro lag hlag
-  cases lags with
-  | some l => exact hint l rfl lag hlag
-  | none =>
-    simp only [lagListOf, List.mem_eraseDups] at hlag
-    obtain ⟨c, hc, rfl⟩ := List.mem_map.mp hlag
-    obtain ⟨_, hpe, _, hee, _, _⟩ := hal c hc
-    exact ⟨_, devLagMonths_monthEnds hpe hee⟩
-
-theorem monthAligned_of_row {x e : Cell} (hk : rowKey x = rowKey e) (hev : x.ev = e.ev)
-    (hx : MonthAligned x) : MonthAligned e := by
-  obtain ⟨_, _, h3⟩ := rowKey_eq_iff.mp hk
-  unfold MonthAligned at *
-  rw [← h3, ← hev]; exact hx
 
 /-- **rightTri_disjoint** (both bases; month unit, month-aligned triangle from 1970 on, integer requested
 lags): every added cell lies strictly after every observation of its slice row — no added coordinate is
@@ -391,6 +369,103 @@ theorem rightDiag_spec {dates : List Date} (h : makeRightDiagonal t dates false 
       exact this
 
 end BothBases
+
+/-! ### disjointness for any unit: the monotonicity hypothesis, day and month instances -/
+
+section Monotone
+variable {t out : List Cell} {lags : Option (List Rat)} {u : LagUnit}
+
+/-- the exact hypothesis the disjointness clause needs, for any unit and any lags: on the cumulative
+form `cum`, adding a lag of the slice's lag list that exceeds a cell's lag gives a date strictly after
+the cell's evaluation date. (It FAILS for lags so close above an observed lag that the date arithmetic
+rounds back onto the observed date: `add_months(2020-01-31, 0.01) = 2020-01-31`,
+`2020-01-31 + timedelta(days=0.5) = 2020-01-31`; with such requested lags `make_right_triangle` re-creates
+an occupied coordinate.) -/
+def LagMonotone (cum : List Cell) (lags : Option (List Rat)) (u : LagUnit) : Prop :=
+  ∀ p ∈ Triangle.slices cum, ∀ e ∈ p.2, ∀ lag ∈ lagListOf lags u p.2, lag > e.devLag u →
+    ∀ ev, addDevLag e.pe lag u = .ok ev → e.ev < ev
+
+theorem rightTri_disjoint_of_monotone_partial (hinc : Triangle.isIncremental t = false)
+    (h : makeRightTriangleU t lags (some u) = .ok out) (hmono : LagMonotone t lags u)
+    {c o : Cell} (hc : c ∈ out) (ho : o ∈ t) (hmd : o.md = c.md) (hps : o.ps = c.ps) (hpe : o.pe = c.pe) :
+    o.ev < c.ev := by
+  obtain ⟨e, he, hce, hlatest, p, hp, hpm, lag, hlag, hgt, hev⟩ :=
+    ((rightTri_lags_exact_partial hinc h c).mp hc).row
+  have h1 : c.md = e.md := by rw [hce]; rfl
+  have h2 : c.ps = e.ps := by rw [hce]; rfl
+  have h3 : c.pe = e.pe := by rw [hce]; rfl
+  have hle := hlatest o ho (hmd.trans h1) (hps.trans h2) (hpe.trans h3)
+  have hep : e ∈ p.2 := (slices_spec hp e).mpr ⟨he, hpm.symm⟩
+  exact Date.lt_of_not_gt_of_lt hle (hmono p hp e hep lag hlag hgt c.ev hev)
+
+/-- **rightTri_disjoint_of_monotone** (both bases, any unit, any lags): under `LagMonotone` on the
+cumulative form, every added cell lies strictly after every observation of its slice row. -/
+theorem rightTri_disjoint_of_monotone (h : makeRightTriangleU t lags (some u) = .ok out)
+    {cum : List Cell} (hcum : CumOf t cum) (hmono : LagMonotone cum lags u)
+    {c o : Cell} (hc : c ∈ out) (ho : o ∈ t) (hmd : o.md = c.md) (hps : o.ps = c.ps) (hpe : o.pe = c.pe) :
+    o.ev < c.ev := by
+  rcases hcum with ⟨hinc, rfl⟩ | ⟨hinc, hcum⟩
+  · exact rightTri_disjoint_of_monotone_partial hinc h hmono hc ho hmd hps hpe
+  · obtain ⟨cum', new, right, hcum', hni, hnew, hright, hperm, hfin⟩ := rightTri_reduces hinc h
+    rw [hcum] at hcum'; cases hcum'
+    obtain ⟨_, hB⟩ := toCumulative_cells hinc hcum
+    obtain ⟨cum'', new', hcumof, hiff, hfwd, _⟩ := rightTri_lags_exact h
+    have : cum'' = cum := by
+      rcases hcumof with ⟨h1, _⟩ | ⟨_, h2⟩
+      · rw [hinc] at h1; cases h1
+      · rw [hcum] at h2; cases h2; rfl
+    subst this
+    obtain ⟨n, hn, hk, hne⟩ := hfwd c hc
+    have hn' : n ∈ new := (rightTriangleCells_mem hnew n).mpr ((hiff n).mp hn)
+    have hnr : n ∈ right := hperm.mem_iff.mpr hn'
+    obtain ⟨o', ho', hok, hoe⟩ := hB o ho
+    obtain ⟨m1, m2, m3⟩ := rowKey_eq_iff.mp hok
+    obtain ⟨k1, k2, k3⟩ := rowKey_eq_iff.mp hk
+    have := rightTri_disjoint_of_monotone_partial hni hright hmono
+      hnr ho' (by rw [m1, hmd, k1]) (by rw [m2, hps, k2]) (by rw [m3, hpe, k3])
+    rw [hoe, ← hne] at this
+    exact this
+
+/-- `LagMonotone` for the day unit: valid dates, integer lags (a fractional day lag is floored by
+`timedelta`), results inside `date.min .. date.max` -/
+theorem lagMonotone_day {cum : List Cell} (hval : ∀ c ∈ cum, c.pe.valid = true ∧ c.ev.valid = true)
+    (hint : ∀ l, lags = some l → ∀ lag ∈ l, ∃ k : Int, lag = ((k : Int) : Rat))
+    (hrange : ∀ p ∈ Triangle.slices cum, ∀ e ∈ p.2, ∀ lag ∈ lagListOf lags .day p.2,
+      1 ≤ e.pe.ordinal + lag.floor ∧ e.pe.ordinal + lag.floor ≤ 3652059) :
+    LagMonotone cum lags .day := by
+  intro p hp e he lag hlag hgt ev hev
+  have hec : e ∈ cum := mem_of_mem_slices hp he
+  obtain ⟨hpv, hevv⟩ := hval e hec
+  obtain ⟨k, rfl⟩ : ∃ k : Int, lag = ((k : Int) : Rat) := by
+    cases lags with
+    | some l => exact hint l rfl lag hlag
+    | none =>
+      simp only [lagListOf, List.mem_eraseDups] at hlag
+      obtain ⟨c, _, rfl⟩ := List.mem_map.mp hlag
+      exact ⟨c.ev.ordinal - c.pe.ordinal, rfl⟩
+  have hev' : e.pe.addDays (((k : Int) : Rat)).floor = ev := Except.ok.inj hev
+  rw [floor_intCast] at hev'
+  obtain ⟨r1, r2⟩ := hrange p hp e he _ hlag
+  rw [floor_intCast] at r1 r2
+  obtain ⟨hv, hord⟩ := addDays_ordinal e.pe k r1 r2
+  rw [hev'] at hv hord
+  have hk : e.ev.ordinal - e.pe.ordinal < k := by
+    have : (((e.ev.ordinal - e.pe.ordinal : Int)) : Rat) < ((k : Int) : Rat) := hgt
+    exact_mod_cast this
+  exact Date.lt_of_ordinal_lt hevv hv (by omega)
+
+/-- `LagMonotone` for the month unit: month-aligned cells from 1970 on, integer requested lags -/
+theorem lagMonotone_month {cum : List Cell} (hal : ∀ c ∈ cum, MonthAligned c)
+    (hint : ∀ l, lags = some l → ∀ lag ∈ l, ∃ k : Int, lag = ((k : Int) : Rat)) :
+    LagMonotone cum lags .month := by
+  intro p hp e he lag hlag hgt ev hev
+  have halp : ∀ c ∈ p.2, MonthAligned c := fun c hc => hal c (mem_of_mem_slices hp hc)
+  obtain ⟨k, rfl⟩ := lagListOf_int halp hint lag hlag
+  have hev' : addMonths e.pe ((k : Int) : Rat) = ev := Except.ok.inj hev
+  rw [← hev']
+  exact addMonths_after (halp e he) hgt
+
+end Monotone
 
 /-! ### `backfill` -/
 
@@ -602,61 +677,52 @@ theorem fill_values {res : Int} {nf : Bool} {row : List Cell} {c : Cell} (h : Fi
 
 /-! ### the executable Spec on the model's output -/
 
-/-- **extensionSpec_model_partial**: the executable Spec clauses `valuesEmpty`, `basis`, `disjoint` and
-`afterLatest` of `rightTriSpec` hold of the model's right triangle (month unit, month-aligned triangle
-from 1970 on, integer requested lags). Missing: the remaining clauses (`onGrid`, `complete`, `nodup`,
-`chain`, `emptyWhenComplete`, `canonical` are proved only in their Prop forms above) and the other
-three operators. -/
-theorem extensionSpec_model_partial {t out : List Cell} {lags : Option (List Rat)}
+/-- **extensionSpec_model_rightTri_partial**: nine of the ten executable clauses of `rightTriSpec` hold of
+the model's right triangle, for both bases (month unit, month-aligned triangle from 1970 on, integer
+requested lags). Missing: the clause `nodup` (no two cells of the result share a coordinate when the
+requested lags are distinct) — the facts proved here are set-level. -/
+theorem extensionSpec_model_rightTri_partial {t out : List Cell} {lags : Option (List Rat)}
     (h : makeRightTriangleU t lags (some .month) = .ok out) (hal : ∀ c ∈ t, MonthAligned c)
     (hint : ∀ l, lags = some l → ∀ lag ∈ l, ∃ k : Int, lag = ((k : Int) : Rat)) :
-    Spec.C15.valuesEmpty out = true ∧ Spec.C15.basisKept t out = true ∧
-    Spec.C15.disjoint t out = true ∧ Spec.C15.afterLatest t out = true := by
-  refine ⟨?_, ?_, ?_, ?_⟩
-  · simp only [Spec.C15.valuesEmpty, List.all_eq_true]
+    Spec.C15.disjoint t out = true ∧ Spec.C15.afterLatest t out = true ∧
+    Spec.C15.rightTriOnGrid t lags .month out = true ∧ Spec.C15.rightTriComplete t lags .month out = true ∧
+    Spec.C15.valuesEmpty out = true ∧ Spec.C15.basisKept t out = true ∧ Spec.C15.chainOk t out = true ∧
+    (!(Spec.C15.rightTriNothingMissing t lags .month) || out.isEmpty) = true ∧
+    Spec.isCanonical out = true := by
+  obtain ⟨cum, new, hf⟩ := rightTri_facts h
+  have hafter : ∀ c ∈ out, ∀ o ∈ t, rowKey o = rowKey c → o.ev < c.ev := by
+    intro c hc o ho hk
+    obtain ⟨k1, k2, k3⟩ := rowKey_eq_iff.mp hk
+    exact rightTri_disjoint h hal hint hc ho k1 k2 k3
+  have hrow : ∀ c ∈ out, ∃ x ∈ t, rowKey x = rowKey c := by
     intro c hc
-    rw [rightTri_values_empty h c hc]; rfl
-  · unfold Spec.C15.basisKept
-    have hb := rightTri_basis h
-    cases hinc : Triangle.isIncremental t with
-    | false =>
-      simp only [Bool.false_eq_true, if_false, List.all_eq_true]
-      intro c hc
-      have := hb c hc
-      simp only [hinc, Bool.false_eq_true, if_false] at this
-      simp [this.1, this.2]
-    | true =>
-      simp only [if_true, List.all_eq_true]
-      intro c hc
-      have := hb c hc
-      simp only [hinc, if_true] at this
-      simp [this.1, this.2]
-  · simp only [Spec.C15.disjoint, List.all_eq_true, Bool.not_eq_true', List.any_eq_false]
-    intro c hc o ho
-    simp only [Spec.C15.sameCoord, Bool.and_eq_true, beq_iff_eq, not_and]
-    intro hrow hev
-    obtain ⟨h1, h2, h3⟩ := sameRow_iff.mp hrow
-    have := rightTri_disjoint h hal hint hc ho h1.symm h2.symm h3.symm
-    rw [hev] at this
-    rw [Date.lt_iff] at this; omega
-  · simp only [Spec.C15.afterLatest, List.all_eq_true]
-    intro c hc
-    obtain ⟨x, hx, hm, hps, hpe, _⟩ := rightTri_metadata h hc
-    have hxr : x ∈ Spec.C15.rowOf t c := by
-      simp only [Spec.C15.rowOf, List.mem_filter]
-      exact ⟨hx, sameRow_iff.mpr ⟨hm, hps, hpe⟩⟩
-    cases hmax : maxEval (Spec.C15.rowOf t c) with
-    | none =>
-      cases hr : Spec.C15.rowOf t c with
-      | nil => rw [hr] at hxr; cases hxr
-      | cons a rest => rw [hr] at hmax; simp [maxEval] at hmax
-    | some m =>
-      obtain ⟨o, ho, hoe⟩ := maxEval_mem hmax
-      simp only [Spec.C15.rowOf, List.mem_filter] at ho
-      obtain ⟨h1, h2, h3⟩ := sameRow_iff.mp ho.2
-      have := rightTri_disjoint h hal hint hc ho.1 h1.symm h2.symm h3.symm
-      simp only [Spec.C15.optLt, decide_eq_true_eq]
-      rw [← hoe]; exact this
+    obtain ⟨x, hx, h1, h2, h3, _⟩ := rightTri_metadata h hc
+    exact ⟨x, hx, rowKey_eq_iff.mpr ⟨h1.symm, h2.symm, h3.symm⟩⟩
+  exact ⟨spec_disjoint hafter, spec_afterLatest hrow hafter, spec_rightTri_onGrid hf hal,
+    spec_rightTri_complete hf, spec_valuesEmpty (spec_values_of_facts hf.empties hf.cumPerm hf.chain),
+    spec_basis hf.empties hf.cumPerm hf.chain, spec_chain hf.chain hf.fwd hf.bwd,
+    spec_rightTri_emptyWhenComplete hf hal,
+    finishRight_canonical (fun n hn => (hf.empties n hn).1) hf.newOk hf.fin⟩
+
+/-- **extensionSpec_model_rightDiag_partial**: nine of the ten executable clauses of `rightDiagSpec` hold
+of the model's right diagonal (`include_historic = False`), for both bases and ANY triangle and date
+list. Missing: the clause `nodup`. -/
+theorem extensionSpec_model_rightDiag_partial {t out : List Cell} {dates : List Date}
+    (h : makeRightDiagonal t dates false = .ok out) :
+    Spec.C15.disjoint t out = true ∧ Spec.C15.afterLatest t out = true ∧
+    Spec.C15.rightDiagOnGrid t dates out = true ∧ Spec.C15.rightDiagComplete t dates out = true ∧
+    Spec.C15.valuesEmpty out = true ∧ Spec.C15.basisKept t out = true ∧ Spec.C15.chainOk t out = true ∧
+    (!(Spec.C15.rightDiagNothingMissing t dates) || out.isEmpty) = true ∧
+    Spec.isCanonical out = true := by
+  obtain ⟨cum, new, hf⟩ := rightDiag_facts h
+  have hafter : ∀ c ∈ out, ∀ o ∈ t, rowKey o = rowKey c → o.ev < c.ev :=
+    fun c hc o ho hk => (hf.cell hc).2.2.2 o ho (md_of_rowKey hk)
+  have hrow : ∀ c ∈ out, ∃ x ∈ t, rowKey x = rowKey c := fun c hc => (hf.cell hc).2.2.1
+  exact ⟨spec_disjoint hafter, spec_afterLatest hrow hafter, spec_rightDiag_onGrid hf,
+    spec_rightDiag_complete hf, spec_valuesEmpty (spec_values_of_facts hf.empties hf.cumPerm hf.chain),
+    spec_basis hf.empties hf.cumPerm hf.chain, spec_chain hf.chain hf.fwd hf.bwd,
+    spec_rightDiag_emptyWhenComplete hf,
+    finishRight_canonical (fun n hn => (hf.empties n hn).1) hf.newOk hf.fin⟩
 
 
 /-! ### non-vacuity: a concrete month-aligned two-row triangle meets the hypotheses -/
@@ -701,11 +767,19 @@ example : replacementValues exFirst ["earned_premium"]
 
 /-! ### statements not proved (covered by the correspondence + Spec on the implementation's output) -/
 
--- OPEN rightTri_disjoint_other_units
---   as `rightTri_disjoint` for the day unit and for fractional (non-integer) month lags
 -- OPEN extensionSpec_model
---   (partial: `extensionSpec_model_partial`) ALL Spec predicates hold of the model's outputs:
---   makeRightTriangle t lags unit = .ok out → LagUnit.parse? unit = some u → Spec.C15.allHold (Spec.C15.rightTriSpec t lags u out) = true
---   (and the analogues for rightDiagSpec, fillSpec, backfillSpec)
+--   ALL executable Spec clauses hold of the model's outputs, for the four operators:
+--     Spec.C15.allHold (Spec.C15.rightTriSpec t lags u out) = true   for out = makeRightTriangleU t lags (some u), etc.
+--   proved: 9 of 10 clauses of `rightTriSpec` (`extensionSpec_model_rightTri_partial`) and of `rightDiagSpec`
+--   (`extensionSpec_model_rightDiag_partial`). Remaining:
+--   * clause `nodup` of both (multiset-level: needs distinct slices / one right-edge cell per row / injectivity of
+--     lag ↦ date, and for incremental input a bijection between `new` and the result);
+--   * `fillSpec`: `preserved` as the list equation `kept t out = t` (Prop form: `fill_preserves_observed`), `insideGaps` and
+--     `values` (Prop forms: `fill_added_inside_gaps`, `fill_values`; the bridge needs first/last lag = min/max lag and
+--     greatest-lag-below = latest-date-before on month-aligned rows), `complete` (every inner grid lag IS filled — not
+--     yet proved in any form), `nodupAdded`, `emptyWhenComplete`, `canonical`;
+--   * `backfillSpec`: `preserved` (Prop: `backfill_preserves_observed`), `beforeFirst`, `minLag`, `values` (Prop forms:
+--     `backfill_added_before_first`, `backfill_min_lag(_exact)`, `backfill_before_first_dates`, `backfill_values`),
+--     `nodupAdded`, `canonical`.
 
 end Bermuda.Properties.C15
